@@ -193,7 +193,7 @@ func (in *Interp) dispatch(s *State, th *Thread, f *Frame, c *callee, at ssa.Ins
 		finish(in.defaultResult(fn.Signature))
 		return nil
 	}
-	if fn.Pkg != nil && in.isBlackhole(fn.Pkg.Pkg.Path()) {
+	if fn.Pkg != nil && in.isBlackhole(fn.Pkg.Pkg.Path()) && !in.keepFunc(name) {
 		switch name {
 		case "github.com/ozontech/seq-db/logger.Panic":
 			panic(goPanic{msg: "logger.Panic(" + in.show(c.args[0]) + ") at " + in.pos(at)})
@@ -277,6 +277,17 @@ func (in *Interp) invokeDeferred(s *State, th *Thread, f *Frame, d *deferRec) {
 	if len(th.frames) == depth+1 {
 		th.top().deferred = true
 	}
+}
+
+// keepFunc: functions of a black-holed package that the harness wants executed (spec: keep_funcs, by
+// name prefix) - pure helpers living in a package that is otherwise all metrics.
+func (in *Interp) keepFunc(name string) bool {
+	for _, p := range in.cfg.KeepFuncs {
+		if strings.HasPrefix(name, p) {
+			return true
+		}
+	}
+	return false
 }
 
 // c0DeferredBuiltin: `defer recover()` itself (the builtin deferred directly) runs in the frame being
